@@ -972,8 +972,10 @@ def _alter_files(
                     basis_inter = InterTree.get(basis_tree, working_tree)
                     basis_path = basis_inter.find_source_path(wt_path)
                     if basis_path is None:
-                        if target_kind is None and not target_versioned:
-                            keep_content = True
+                        # The file is not in the basis tree, so its content
+                        # exists nowhere else: keep it (it is backed up below
+                        # if the target has contents for this path).
+                        keep_content = True
                     else:
                         if wt_sha1 != basis_tree.get_file_sha1(basis_path):
                             keep_content = True
